@@ -37,7 +37,9 @@ def union_bytype_int_for_float(job, failure) -> bool:
 
 
 def unique_items_bool_int(job, failure) -> bool:
-    return _explained(job, failure, "unique_bool_int")
+    # alone, or together with the Literal / Enum conflation of the same two values
+    # ([1, True] at a unique list of Literal[1, ...]: True is taken for 1, then for a duplicate)
+    return _explained(job, failure, "unique_bool_int") or _rerun(job, failure, relax=("unique_bool_int", "lit_bool_int"))
 
 
 def unique_items_unhashable(job, failure) -> bool:
